@@ -150,7 +150,9 @@ def intLit? (lit : String) : Option Int :=
   let ds := if cs.head? = some '-' then cs.drop 1 else cs
   if ds.isEmpty || !ds.all (fun c => '0' ≤ c && c ≤ '9') then none
   else if ds.length > 1 && ds.head? = some '0' then none
-  else lit.toInt?
+  else match lit.toInt? with
+    | some n => if -9223372036854775808 ≤ n ∧ n ≤ 9223372036854775807 then some n else none   -- int64
+    | none => none
 
 /-- float64 → `int(value)` for plain decimal literals (integer part). -/
 def truncLit (lit : String) : Int :=
